@@ -9,8 +9,9 @@
        read      blocked stdin read            wakes when the context is cancelled (read deadline)
        exec      child process                 wakes when the child is dead; Cancel interrupts the child,
                                                a child that ignores the interrupt is killed after killTimeout
-       waitjob   `wait`: <-job.done            wakes when that job's goroutine has ended (no path of its own:
-                                               it relies on the job being cancellable)
+       waitjob   `wait`: <-job.done            wakes when that job's goroutine has ended; it needs no path of its
+                                               own as long as every job is cancellable, but may have one
+                                               (WaitCancellable)
        pipejoin  wg.Wait of a pipeline         wakes when the left stage has ended; runs even if cancelled
        fifoopen  open(2) of a process          wakes when a peer opens the other end -- and, by the CONTRACT
                  substitution's FIFO           (FifoCancellable = TRUE), when the context is cancelled
@@ -22,15 +23,16 @@
    TLC checks, under weak fairness of every goroutine and of the environment (signal delivery, kill
    timer):     Live    ==  cancelled ~> returned
    and the safety part "no wait-for cycle survives Cancel":  NoStuck.
-   With FifoCancellable = FALSE the model has the blocking operation without cancellation path that
-   interp has today (os.OpenFile on the FIFO in the process-substitution goroutine): ShCancel.nofifo.cfg
-   must FAIL (self-test), and it may fail only on shapes of the Trigger class (StuckOnlyIfTrigger),
+   With FifoCancellable = FALSE and WaitCancellable = FALSE the model has the blocking operation without
+   cancellation path that interp has today (os.OpenFile on the FIFO in the process-substitution goroutine,
+   waited for by a `wait` that does not look at the context): ShCancel.nofifo.cfg must FAIL (self-test), and it may fail only on shapes of the Trigger class (StuckOnlyIfTrigger),
    which is how the known finding Dev_FifoOpenNoCancel is recognised.
 
    ShCancelTrace replays event traces recorded by hook H12 from real runs against these same actions. *)
 EXTENDS Integers, Sequences, FiniteSets, TLC, Json
 
-CONSTANTS FifoCancellable,   \* TRUE = the contract
+CONSTANTS FifoCancellable,   \* TRUE = the contract: a FIFO open gives up when the context is cancelled
+          WaitCancellable,   \* TRUE = `wait` may also give up (and report the error) when the context is cancelled
           MaxCancel,         \* cancellation steps 0..MaxCancel
           Mode               \* "mc" = model checking, "trace" = driven by ShCancelTrace
 
@@ -73,7 +75,7 @@ Shapes == {
      <<S(<<Read>>)>>, NoG),
   Sh("sleep",           "sleep 100",
      <<S(<<Exec(TRUE)>>)>>, NoG),
-  Sh("sleep-noint",     "sh -c 'trap \"\" INT; while :; do :; done'",
+  Sh("sleep-noint",     "sh -c 'trap \"\" INT; i=0; while [ $i -lt 20000000 ]; do i=$((i+1)); done'",
      <<S(<<Exec(FALSE)>>)>>, NoG),
   Sh("bg-loop-wait",    "while :; do :; done & wait",
      <<S(<<Spawn("j1")>>), S(<<WaitJob("j1")>>)>>, G("bg", <<Loop>>)),
@@ -219,6 +221,14 @@ WaitExit(g) ==                                         \* (does not look at the 
   /\ ph' = [ph EXCEPT ![g] = "idle"] /\ Advance(g)
   /\ UNCHANGED <<shape, cancelAt, cancelled, returned, gst, fifo, proc, seen>>
 
+\* a cancellation path of its own for `wait` (allowed by the contract, and what the proposed fix adds)
+WaitAbort(g) ==
+  /\ WaitCancellable /\ cancelled
+  /\ gst[g] = "run" /\ InEff(g) /\ Eff(g).e = "waitjob" /\ ph[g] = "in"
+  /\ Obs(g, "wait.after") /\ See(g)
+  /\ ph' = [ph EXCEPT ![g] = "idle"] /\ Abandon(g)
+  /\ UNCHANGED <<shape, cancelAt, cancelled, returned, gst, fifo, proc>>
+
 JoinEnter(g) ==                                        \* pr.Close(); wg.Wait()
   /\ gst[g] = "run" /\ InEff(g) /\ Eff(g).e = "pipejoin" /\ ph[g] = "idle"
   /\ IF gst[Eff(g).g] = "none"                         \* the pipeline was given up before it spawned anything
@@ -270,7 +280,7 @@ IdlePoll(g) ==
 
 GStep(g) == \/ Start(g) \/ IdlePoll(g) \/ Poll(g) \/ AbandonStmt(g) \/ NestedPoll(g) \/ LoopPoll(g) \/ LoopExit(g)
             \/ SpawnStep(g) \/ ReadEnter(g) \/ ReadExit(g)
-            \/ ExecEnter(g) \/ ExecExit(g) \/ WaitEnter(g) \/ WaitExit(g) \/ JoinEnter(g) \/ JoinExit(g)
+            \/ ExecEnter(g) \/ ExecExit(g) \/ WaitEnter(g) \/ WaitExit(g) \/ WaitAbort(g) \/ JoinEnter(g) \/ JoinExit(g)
             \/ FifoEnter(g) \/ FifoExit(g) \/ FifoAbort(g) \/ End(g)
 Env == \E g \in Gs : Interrupt(g) \/ Kill(g)
 Next == Cancel \/ Env \/ \E g \in Gs : GStep(g)
